@@ -28,7 +28,10 @@ func (c *wsNetConn) Write(b []byte) (n int, err error) {
 }
 
 func (c *wsNetConn) Close() error {
-	panic("unimplemented")
+	// called by the WebSocket library when the handshake fails,
+	// for instance when the peer sends data before it is completed.
+	// the underlying connection is closed by ServerConn.
+	return nil
 }
 
 func (c *wsNetConn) LocalAddr() net.Addr {
